@@ -26,6 +26,8 @@ pub const NAMES: &[&str] = &[
 const MATCH_POOL: &[usize] = &[0, 1, 2, 5, 6, 7, 8, 9, 10, 11, 12, 13, 14, 15, 16, 17, 18, 24];
 const SOCKET_EXPORT_POOL: &[usize] = &[20, 3, 21, 4, 1];
 const NOMATCH_POOL: &[usize] = &[25, 26];
+/// names on one semver track
+const FAMILIES: &[&[usize]] = &[&[5, 6, 7], &[9, 10, 24], &[16, 17]];
 const KINDS: &[&str] = &["F0", "F1", "F2", "F3", "I0", "I1", "I2", "I3", "I4"];
 
 fn nidx(n: &str) -> usize { NAMES.iter().position(|x| *x == n).unwrap_or_else(|| panic!("name {n} not in pool")) }
@@ -347,6 +349,15 @@ fn gen_block(r: &mut Rng, ncases: usize) -> Block {
     for (a, b) in [(6usize, 5usize), (7, 5), (10, 9), (24, 9), (17, 16)] {
         if r.chance(3, 4) { if let Some(k) = name_kind.get(&b).cloned() { if name_kind.contains_key(&a) { name_kind.insert(a, k); } } }
     }
+    // the block's semver family: two of its versions are always available
+    let fam: &[usize] = *r.pick(FAMILIES);
+    let fa = *r.pick(fam);
+    let fb = loop { let x = *r.pick(fam); if x != fa { break x; } };
+    for n in [fa, fb] { if !focus.contains(&n) { focus.push(n); } }
+    let base = name_kind.get(&fa).cloned().unwrap_or_else(|| pick_kind(r));
+    name_kind.insert(fa, base.clone());
+    let kb = if r.chance(3, 4) { base } else { pick_kind(r) };
+    name_kind.entry(fb).or_insert(kb);
     let nsock = 3 + r.below(4) as usize;
     let nplug = 6 + r.below(6) as usize;
     let mut libs = Vec::new();
@@ -358,6 +369,19 @@ fn gen_block(r: &mut Rng, ncases: usize) -> Block {
             if imports.iter().any(|(m, _)| *m == n) { continue; }
             let k = if r.chance(4, 5) { name_kind[&n].clone() } else { pick_kind(r) };
             imports.push((n, k));
+        }
+        // sockets importing exactly one version of a family: drop the siblings (half of the sockets), and make
+        // sure that many sockets import a version of the block's family at all
+        if r.chance(1, 2) {
+            for f in FAMILIES {
+                let members: Vec<usize> = imports.iter().map(|(n, _)| *n).filter(|n| f.contains(n)).collect();
+                if members.len() >= 2 { let keep = *r.pick(&members); imports.retain(|(n, _)| !f.contains(n) || *n == keep); }
+            }
+            if !imports.iter().any(|(n, _)| fam.contains(n)) {
+                let n = if r.chance(1, 2) { fa } else { fb };
+                let k = if r.chance(4, 5) { name_kind[&n].clone() } else { pick_kind(r) };
+                imports.push((n, k));
+            }
         }
         let ne = 1 + r.below(2) as usize;
         let mut exports: Vec<(usize, String)> = Vec::new();
@@ -373,6 +397,15 @@ fn gen_block(r: &mut Rng, ncases: usize) -> Block {
         if r.chance(1, 8) {
             // a plug with no matching export
             exports.push((*r.pick(NOMATCH_POOL), pick_kind(r)));
+        } else if r.chance(1, 3) {
+            // two versions of the block's family in one plug, in either order, each type-compatible with the
+            // family's kind or not; sometimes a further export
+            let (x, y) = if r.chance(1, 2) { (fa, fb) } else { (fb, fa) };
+            for n in [x, y] {
+                let k = if r.chance(2, 3) { kind_near(r, &name_kind[&n]) } else { pick_kind(r) };
+                exports.push((n, k));
+            }
+            if r.chance(1, 3) { let n = *r.pick(&focus); if !exports.iter().any(|(m, _)| *m == n) { let k = kind_near(r, &name_kind[&n]); exports.push((n, k)); } }
         } else {
             let ne = 1 + r.below(3) as usize;
             while exports.len() < ne.min(focus.len()) {
